@@ -41,6 +41,13 @@ for s in $FW_SRCS; do
     PIDS="$PIDS $!"
   fi
 done
+for m in tlsmark_begin tlsmark_end; do
+  o="$B/fw/$m.o"
+  if [ ! -f "$o" ] || [ "$V/sim/$m.cc" -nt "$o" ]; then
+    ( $CXX -std=c++17 $OPT $DEFS -fno-sanitize=all -c "$V/sim/$m.cc" -o "$o.tmp.$$" && mv "$o.tmp.$$" "$o" ) &
+    PIDS="$PIDS $!"
+  fi
+done
 for p in $PIDS; do wait $p || fail "framework compile error"; done
 flock -u 9
 
@@ -93,6 +100,7 @@ for o in "$R"/c_*.o "$R"/x_*.o; do
 done
 
 LIBS="-lpthread"
-$CXX $OPT $SAN $FWSAN -o "$R/simcheck" $FW_OBJS "$R"/*.o $LIBS || fail "link"
+# (the two marker objects bracket the library's thread-local storage: link order is layout order)
+$CXX $OPT $SAN $FWSAN -o "$R/simcheck" $FW_OBJS "$B/fw/tlsmark_begin.o" "$R"/*.o "$B/fw/tlsmark_end.o" $LIBS || fail "link"
 echo "$R/simcheck"
 exit 0
